@@ -20,6 +20,7 @@ def worker(case):
     pos, bit = case["pos"], case["bit"]
     data = base[:pos] + bytes([base[pos] ^ (1 << bit)]) + base[pos + 1:]
     cid = core.h8([case["base"], pos, bit, case["sizes"], case.get("mode"), case.get("pre")])
+    case.setdefault("mode", "plain")
     stats = {"corrupted_files": 1}
     try:
         p = zckref.parse(base)
@@ -54,6 +55,21 @@ def worker(case):
                 L += ["clear_error 1", "read 1 %d" % n]
             L += ["close 1"]
             rd = core.run_zh(case["zh"], cdir, "\n".join(L) + "\n", {"f.zck": data}, name="read", slow_retry=case.get("zh_plain"))
+        elif mode == "chunk":
+            # the chunk is asked for by number (zck_get_chunk_data) instead of being reached by the stream: exact buffer, a larger one, a
+            # 16-byte peek; a good neighbour before and after; optionally validated while intact and damaged afterwards
+            kk = max(k, 0)
+            others = [c["number"] for c in p.chunks if c["number"] not in (0, kk) and c["len"] > 0]
+            L = ["fopen 1 f.zck rw input", "create 1", "init_read 1 1"]
+            if case.get("pre"):
+                L += ["%s 1" % case["pre"], "poke 1 %d x:%02x" % (pos, data[pos])]
+            if others and k != 0:
+                L.append("chunkdata 1 %d" % others[0])
+            for b_ in case["sizes"]:
+                L += ["chunkdata 1 %d %d" % (kk, b_), "clear_error 1"]
+            if others and k != 0:
+                L.append("chunkdata 1 %d" % others[-1])
+            rd = core.run_zh(case["zh"], cdir, "\n".join(L) + "\n", {"f.zck": base if case.get("pre") else data}, name="read", slow_retry=case.get("zh_plain"))
         else:
             # validated while intact, then the stored bytes change on disk, then the stream is read
             L = ["fopen 1 f.zck rw input", "create 1", "init_read 1 1", "%s 1" % case.get("pre", "vc"), "poke 1 %d x:%02x" % (pos, data[pos]),
@@ -77,6 +93,17 @@ def worker(case):
             orig_piece = zckref.decode(base).pieces[k]
         except Exception:
             pass
+        for e in [x for x in rd.events if x.get("op") == "chunkdata"]:
+            nreads += 1
+            stats["chunk_requests_judged"] = stats.get("chunk_requests_judged", 0) + 1
+            if e["rc"] < 0:
+                seen_err = True
+            elif e["rc"] > 0 and int(e["k"]) == max(k, 0):
+                bs = "small" if e["want"] < p.chunks[max(k, 0)]["len"] else ("exact" if e["want"] == p.chunks[max(k, 0)]["len"] else "larger")
+                viol = ("c15:released-unverified:chunk-request:%s%s" % (bs, ":tamper" if case.get("pre") else ""),
+                        "zck_get_chunk_data(chunk %d, buffer %d) returned %d bytes although the chunk's stored bytes fail its checksum (bit %d of file byte %d)" %
+                        (k, e["want"], e["rc"], bit, pos))
+                break
         for e in [x for x in rd.events if x.get("ev") == "read" or x.get("op") == "read"]:
             nreads += 1
             rc = e["rc"]
@@ -107,7 +134,7 @@ def worker(case):
         if viol:
             keep = True
             return core.verdict(cid, "violated", [viol[0]], stats, detail=viol[1] + " base=%s sizes=%s" % (case["base"], case["sizes"]), cdir=cdir, case=case)
-        if not seen_err:
+        if not seen_err and mode != "chunk":
             # reached the end without an error and without handing out the chunk?  then the
             # stream must have stopped before the bad chunk (otherwise bytes were skipped)
             if off > u0 and k != 0:
@@ -126,7 +153,7 @@ class C15(core.Check):
     rule = ("zstd files (3-6 small chunks; and manual chunks of 0.3-4 MB, beyond what the automatic chunker produces, with/without dictionary, with/without uncompressed-source flag) x single-bit flips of body bytes "
             "(40 per file in quick, 2 500 per file in thorough - every bit when the body is smaller than that) x read sizes {1,100,chunk-1,chunk,chunk+1,32768}; after the first "
             "error three more reads are issued; variants: the caller clears the error and keeps reading with small buffers; the file is validated while "
-            "intact, then damaged on disk, then read. non-trivial = the corrupted chunk still decompresses (so only the checksum can stop it)")
+            "intact, then damaged on disk, then read; the chunk requested by number (zck_get_chunk_data: exact, larger and 16-byte buffers, good neighbours before and after, optionally validated first). non-trivial = the corrupted chunk still decompresses (so only the checksum can stop it)")
     assumptions = ["chunk table taken from the unmodified header (only body bytes are flipped)"]
     worker = staticmethod(worker)
 
@@ -173,6 +200,8 @@ class C15(core.Check):
                 for sizes in r.sample([[4096], [32768], [100000], [big["len"] + 1], [big["len"] - 1], [7000, 1, 65536]] if big["comp_len"] < 3000000 else [[65536], [1000000], [big["len"] - 1]], 2 if self.quick else 3):
                     out.append({"base": "big%d" % bi, "data": core.b64(data), "pos": pos, "bit": bit, "sizes": sizes, "zh": ctx["zh"], "zh_plain": ctx.get("zh_plain")})
                 out.append({"base": "big%d" % bi, "data": core.b64(data), "pos": pos, "bit": bit, "sizes": [32768], "zh": ctx["zh"], "zh_plain": ctx.get("zh_plain"), "mode": "clear"})
+                out.append({"base": "big%d" % bi, "data": core.b64(data), "pos": pos, "bit": bit, "sizes": [big["len"], big["len"] + 1, 16], "zh": ctx["zh"], "zh_plain": ctx.get("zh_plain"),
+                            "mode": "chunk", "pre": r.choice([None, None, "vc"])})
                 out.append({"base": "big%d" % bi, "data": core.b64(data), "pos": pos, "bit": bit, "sizes": r.choice([[4096], [65536]]) if big["comp_len"] < 3000000 else [65536], "zh": ctx["zh"], "zh_plain": ctx.get("zh_plain"),
                             "mode": "tamper", "pre": r.choice(["vc", "fv"])})
         per = 40 if self.quick else None
@@ -197,6 +226,10 @@ class C15(core.Check):
                 pick = r.sample(szs, 2 if self.quick else 3)
                 for sizes in pick:
                     out.append({"base": b["name"], "data": core.b64(b["data"]), "pos": pos, "bit": bit, "sizes": sizes, "zh": ctx["zh"]})
+                ck = p.chunks[max(k, 0)]["len"]
+                if ck > 0:
+                    out.append({"base": b["name"], "data": core.b64(b["data"]), "pos": pos, "bit": bit, "sizes": [ck, r.choice([ck + 1, 2 * ck, 32768 + ck]), r.choice([1, 16, max(ck - 1, 1)])],
+                                "zh": ctx["zh"], "mode": "chunk", "pre": r.choice([None, None, None, "vc", "fv"]) if k >= 1 else None})
                 if k >= 1 and (not self.quick or r.random() < 0.5):
                     out.append({"base": b["name"], "data": core.b64(b["data"]), "pos": pos, "bit": bit, "sizes": r.choice([[1000], [4096], [cl], [100]]), "zh": ctx["zh"], "mode": "clear"})
                     out.append({"base": b["name"], "data": core.b64(b["data"]), "pos": pos, "bit": bit, "sizes": r.choice(szs), "zh": ctx["zh"], "mode": "tamper",
